@@ -708,3 +708,58 @@ Proof.
   split; [repeat constructor; simpl; intuition discriminate|].
   destruct C as [[] m t]; repeat split.
 Qed.
+
+(* F-C12-3: one version string twice with different attributes.  No comparator separates the two
+   records (they have one key), so even the repaired SortVersions returns them in input order *)
+Definition w_r1 : version := mk_ver sys_npm [49] [(ver_tags, [97])].
+Definition w_r2 : version := mk_ver sys_npm [49] [(ver_tags, [98])].
+Lemma repeated_string_witness :
+  Permutation [w_r1; w_r2] [w_r2; w_r1] /\ ver w_r1 = ver w_r2 /\ w_r1 <> w_r2 /\
+  sort_versions cfg_repaired all_oracle [w_r1; w_r2] = [w_r1; w_r2] /\
+  sort_versions cfg_repaired all_oracle [w_r2; w_r1] = [w_r2; w_r1].
+Proof. split; [apply perm_swap|]. repeat split. discriminate. Qed.
+
+(* ---------- the npm resolution order is determined when shown names differ ---------- *)
+Lemma dep_cmp_eq0 a b :
+  dep_cmp a b = 0%Z <-> dep_is_dev (r_type a) = dep_is_dev (r_type b) /\ dep_name a = dep_name b.
+Proof.
+  unfold dep_cmp, dkey. rewrite lex_eq0. simpl. rewrite lex_eq0. simpl.
+  rewrite !bytes_compare_eq, cmpZ_eq. split.
+  - intros (H1 & H2 & H3). split; auto.
+    destruct (dep_is_dev (r_type a)), (dep_is_dev (r_type b)); auto; discriminate.
+  - intros (H1 & H2). rewrite H1, H2. auto.
+Qed.
+
+(* requirements that the order does not separate: same shown name and same dev-alone status *)
+Definition deps_separated (ds : list reqver) : Prop :=
+  forall a b, In a ds -> In b ds ->
+    dep_is_dev (r_type a) = dep_is_dev (r_type b) -> dep_name a = dep_name b -> a = b.
+
+Lemma sort_deps_perm_unique ds ds' :
+  Forall (fun d => r_sys d = sys_npm) ds -> deps_separated ds -> Permutation ds ds' ->
+  sort_deps ds = sort_deps ds'.
+Proof.
+  intros Hs Sep Hp.
+  assert (Hs' : Forall (fun d => r_sys d = sys_npm) ds') by (eapply Permutation_Forall; eauto).
+  destruct ds as [|a t], ds' as [|b t']; auto.
+  - apply Permutation_nil in Hp. discriminate.
+  - symmetry in Hp. apply Permutation_nil in Hp. discriminate.
+  - unfold sort_deps. inversion Hs; inversion Hs'; subst. rewrite H1, H5, N.eqb_refl.
+    apply (isort_perm_unique (fun _ => True) dep_cmp dep_less (core_laws _ _ dep_cmp_core)); auto.
+    + intros; apply dep_less_cmp.
+    + apply Forall_forall; auto.
+    + intros x y Hx Hy E. apply dep_cmp_eq0 in E as [E1 E2]. apply Sep; auto.
+Qed.
+
+(* whatever sorting algorithm produced an ascending permutation of such a list (sort.Slice
+   beyond 12 elements), it is the model's *)
+Lemma sort_deps_any_sort d0 t s :
+  r_sys d0 = sys_npm -> deps_separated (d0 :: t) ->
+  Permutation s (d0 :: t) -> StronglySorted dep_le s -> s = sort_deps (d0 :: t).
+Proof.
+  intros Hs Sep Hp Ss. unfold sort_deps. rewrite Hs, N.eqb_refl.
+  apply (isort_is_the_sorted_perm (fun _ => True) dep_cmp dep_less (core_laws _ _ dep_cmp_core)); auto.
+  - intros; apply dep_less_cmp.
+  - apply Forall_forall; auto.
+  - intros x y Hx Hy E. apply dep_cmp_eq0 in E as [E1 E2]. apply Sep; auto.
+Qed.
